@@ -66,7 +66,6 @@ type sim struct {
 	armLeader  int // crash the next node that becomes leader at this step of that Ready
 	propSeq    uint64
 	ccProposed int
-	totalTicks int
 
 	o    oracle
 	viol *violation
@@ -472,6 +471,17 @@ func (s *sim) crashed() []*node {
 	return out
 }
 
+// maxTicks: simulated time = the clock of the node that ticked most.
+func (s *sim) maxTicks() int {
+	m := 0
+	for id := 1; id <= maxID; id++ {
+		if t := s.nodes[id].ticks; t > m {
+			m = t
+		}
+	}
+	return m
+}
+
 func (s *sim) startedCount() int {
 	c := 0
 	for id := 1; id <= maxID; id++ {
@@ -643,7 +653,6 @@ func (s *sim) event() {
 	case evTick:
 		// 0 = every live node (uniform passage of time), k = node k alone (clock skew)
 		k := s.tape.Draw(len(lv) + 1)
-		s.totalTicks++
 		for j, n := range lv {
 			if (k == 0 || k-1 == j) && n.rn != nil && s.viol == nil {
 				s.hash(0xA1, n.id)
@@ -1163,7 +1172,6 @@ func (s *sim) liveness() {
 				s.settle(n)
 			}
 		}
-		s.totalTicks++
 		for k := 0; len(s.soup) > 0 && k < 20000 && s.viol == nil; k++ {
 			s.deliver(0, false)
 		}
